@@ -319,16 +319,21 @@ def coq_tobs(o):
     return "TOther"
 
 
-def coq_tcase(t, n, dqs, dobs, tqs, tobs):
+def coq_bool(x):
+    return "true" if x else "false"
+
+
+def coq_tcase(t, n, dqs, dobs, tqs, tobs, df):
     dq = ";".join(f"(({k})%Z, {coq_alg(a)}, {coq_dobs(o, a[0] == 'tol')})" for (k, a), o in zip(dqs, dobs))
     tq = ";".join(f"({coq_alg(a)}, {coq_tobs(o)})" for a, o in zip(tqs, tobs))
-    return "{| te := " + T.coq(t) + f"; tn := {n}; tdq := [{dq}]; ttq := [{tq}] |}}"
+    dfl = f"(mkdflags {coq_bool(df['ragged_fixed'])} {coq_bool(df['kron_refuse'])} {coq_bool(df['bd_refuse'])})"
+    return "{| te := " + T.coq(t) + f"; tn := {n}; tdf := {dfl}; tdq := [{dq}]; ttq := [{tq}] |}}"
 
 
-def coq_gcase(n, M, vq, vobs, cls):
+def coq_gcase(n, M, vq, vobs, cls, df):
     dq = ";".join(f"(({k})%Z, {coq_dobs(o)})" for k, o in zip(vq, vobs))
     cl = ";".join(f"(({k})%Z, {'true' if b else 'false'})" for k, b in cls)
-    return "{| gn := " + f"{n}; gM := {T.zmat(T.to_gauss(M))}; gdq := [{dq}]; gcls := [{cl}] |}}"
+    return "{| gn := " + f"{n}; gfx := {coq_bool(df['ragged_fixed'])}; gM := {T.zmat(T.to_gauss(M))}; gdq := [{dq}]; gcls := [{cl}] |}}"
 
 
 def eval_coq(name, terms, typ, fn, cnt, shard, timeout=1500):
